@@ -257,12 +257,15 @@ class AioImpl:
                 self.logger = logging.getLogger("scheduler")
             self.logger.propagate = False
             self.logger.handlers = []          # configured after the scheduler was built
-            self.logger.setLevel(logging.DEBUG)
+            # ... and in half of the histories it is silent while the scheduler is built (level raised afterwards)
+            late_level = (init[2] // 3) % 2 == 0
+            self.logger.setLevel(logging.CRITICAL + 10 if late_level else logging.DEBUG)
             from scheduler.asyncio import Scheduler as AioScheduler
             kw = dict(tzinfo=self.tz, **extra)
             if self.user_logger:
                 kw["logger"] = self.logger
             self.sch = AioScheduler(**kw)
+            self.logger.setLevel(logging.DEBUG)
             self.logger.handlers = [core._CountingHandler(self.on_log)]
             self.lines.append(s_atop(init))
             self.blocks.append(self.observe(("none",)))
